@@ -1,6 +1,7 @@
 package main
 
 import (
+	"fmt"
 	"strconv"
 )
 
@@ -177,6 +178,19 @@ func genHeaderLies(h *H, rounds int) {
 					if mjs == 2 || l.format != "saltpack" || l.modeDelta != 0 {
 						h.tag("lie:sc")
 						h.Run(consumerCase("sc", "any", producer{name: "sc", wire: psc.seal(), msg: msg, boxSk: bsk, sigSk: ssk2}, ex))
+					}
+					if l.format == "saltpack" && l.modeDelta == 0 {
+						// signcryption exists only in major version 2: a self-consistent message labelled with
+						// any other major (sealed and signed over that header) must be refused
+						for _, om := range []int{0, 1, 3} {
+							for _, mn := range []int{0, 7} {
+								q := *psc
+								q.major, q.minor = om, mn
+								h.tag("lie:sc-major")
+								h.Run(consumerCase("sc", "any", producer{name: "sc", wire: q.seal(), msg: msg, boxSk: bsk, sigSk: ssk2},
+									map[string]string{"must_reject": "accepts-lying-header", "why": fmt.Sprintf("signcryption message labelled version %d.%d", om, mn)}))
+							}
+						}
 					}
 				}
 			}
